@@ -189,6 +189,7 @@ class Facts:
         self.impls = d["impls"]
         self.adts = d["adts"]
         self.traits = d["traits"]
+        self.aliases = d.get("aliases", [])
         self.body_by_id = {b["i"]: b for b in self.bodies}
         self.impl_by_id = {im["i"]: im for im in self.impls}
         self.adt_by_path = {a["path"]: a for a in self.adts}
